@@ -904,6 +904,53 @@ func TestReplay(t *testing.T) {
 	TestFilteredEventsInertAllMethods(t)
 }
 
+// levelLog records the level of every WriteLevel call.
+type levelLog struct {
+	lv []zerolog.Level
+	n  []int
+}
+
+func (w *levelLog) Write(p []byte) (int, error) { return w.WriteLevel(zerolog.Level(-100), p) }
+func (w *levelLog) WriteLevel(l zerolog.Level, p []byte) (int, error) {
+	w.lv, w.n = append(w.lv, l), append(w.n, len(p))
+	return len(p), nil
+}
+
+// TestLevelsThroughTriggerWriter: events held back by a TriggerLevelWriter arrive, when released, with
+// exactly their own levels, whatever their size (a field of 70000 bytes included).
+func TestLevelsThroughTriggerWriter(t *testing.T) {
+	for _, big := range []int{0, 10, 300, 65500, 65536, 70000, 140000} {
+		w := &levelLog{}
+		tw := &zerolog.TriggerLevelWriter{Writer: w, ConditionalLevel: zerolog.DebugLevel, TriggerLevel: zerolog.ErrorLevel}
+		l := zerolog.New(tw)
+		pad := strings.Repeat("p", big)
+		l.Debug().Str("pad", pad).Msg("held 1")
+		l.Trace().Msg("held 2")
+		l.Info().Msg("passes")
+		l.Debug().Str("pad", pad).Str("pad2", pad).Msg("held 3")
+		l.Error().Msg("trigger")
+		l.Debug().Msg("after")
+		l.Log().Msg("no level")
+		want := []zerolog.Level{zerolog.InfoLevel, zerolog.DebugLevel, zerolog.TraceLevel, zerolog.DebugLevel, zerolog.ErrorLevel, zerolog.DebugLevel, zerolog.NoLevel}
+		rec.Case([]byte(fmt.Sprintf("levels through trigger writer, pad %d", big)), true, "trigger-writer-levels")
+		bad := ""
+		if len(w.lv) != len(want) {
+			bad = fmt.Sprintf("destination received %d events (levels %v), want %d (levels %v)", len(w.lv), w.lv, len(want), want)
+		}
+		for i := 0; i < len(want) && bad == ""; i++ {
+			if w.lv[i] != want[i] {
+				bad = fmt.Sprintf("event %d reached the destination with level %d, want %d (levels received: %v)", i, w.lv[i], want[i], w.lv)
+			}
+		}
+		if bad != "" {
+			f := inertFail{fmt.Sprintf("TriggerLevelWriter with %d-byte fields", big), "", bad}
+			ev.SaveReplay("C04-trigger", f)
+			fmt.Printf("VERIF-FAIL: %s: %s\n", f.Method, bad)
+			t.Fatalf("%s", bad)
+		}
+	}
+}
+
 // ---------------------------------------------------------------- the gate while the global level moves
 
 type gateRec struct {
